@@ -24,7 +24,15 @@ impl ErrSpec {
     }
     fn build(&self) -> Error {
         fn leaf(u: u32, k: u8) -> Error {
-            let name = format!("E{u}E");
+            // kinds 6..12 are the same errors carrying a span of their own (their name says so)
+            let spanned = k >= 6;
+            let name = format!("E{u}E{}", if spanned { "S" } else { "" });
+            if spanned {
+                return leaf_named(&name, u, k - 6).with_span(&proc_macro2::Span::call_site());
+            }
+            leaf_named(&name, u, k)
+        }
+        fn leaf_named(name: &str, u: u32, k: u8) -> Error {
             match k % 6 {
                 0 => Error::custom(format!("custom {name}")),
                 1 => Error::unknown_field(&name),
@@ -70,7 +78,7 @@ struct History {
 fn gen_err(rng: &mut Rng, uid: &mut u32) -> ErrSpec {
     let mut next = |rng: &mut Rng| {
         *uid += 1;
-        (*uid, rng.below(6) as u8)
+        (*uid, if rng.chance(1, 3) { 6 + rng.below(6) as u8 } else { rng.below(6) as u8 })
     };
     if rng.chance(1, 4) {
         let n = rng.range(2, 4);
@@ -146,7 +154,10 @@ fn leaf_uids(e: &Error) -> Vec<u32> {
                         j += 1;
                     }
                     if j > i + 1 && j < b.len() && b[j] == b'E' {
-                        return s[i + 1..j].parse().unwrap_or(0);
+                        let uid: u32 = s[i + 1..j].parse().unwrap_or(0);
+                        // an error keeps the span it was recorded with, and gains none
+                        let said = b.get(j + 1) == Some(&b'S');
+                        return if said == l.has_span() { uid } else { uid + 1_000_000 };
                     }
                 }
                 i += 1;
